@@ -138,13 +138,20 @@ func buildLibPacket(ps *plan.PktSpec) (*tq.Packet, error) {
 			return nil, err
 		}
 	}
+	seq := int(ps.Seq)
+	if ps.SeqWide > 0 {
+		seq = int(ps.SeqWide)
+	}
 	h := tq.NewHeader(
 		tq.SetHeaderVersion(tq.Version{MajorVersion: ps.Ver >> 4, MinorVersion: ps.Ver & 0x0f}),
 		tq.SetHeaderType(tq.HeaderType(ps.Type)),
-		tq.SetHeaderSeqNo(int(ps.Seq)),
+		tq.SetHeaderSeqNo(seq),
 		tq.SetHeaderFlag(tq.HeaderFlag(ps.Flags)),
 		tq.SetHeaderSessionID(tq.SessionID(ps.Session)),
 	)
+	if ps.BodyFirst {
+		return tq.NewPacket(tq.SetPacketBody(body), tq.SetPacketHeader(h)), nil
+	}
 	return tq.NewPacket(tq.SetPacketHeader(h), tq.SetPacketBody(body)), nil
 }
 
